@@ -146,7 +146,7 @@ def eval_migration(f, path, records, target_empty=True):
         return "UNSUPPORTED-FORM: %s" % e, log
 
 
-def eval_entry_put(f, head, empty=False, ts_equal=False, head_record_exists=True):
+def eval_entry_put(f, head, empty=False, ts_equal=False, head_record_exists=True, survivors=("k-a", "k-m")):
     """StoreInstance::entry_put evaluated: Store::modify runs the transaction body; `head` = None (author unknown) or
     cmp((timestamp,key) of the entry, stored head) in {-1,0,1}. Returns (rendered result, table writes)."""
     from . import feval as E
@@ -156,6 +156,10 @@ def eval_entry_put(f, head, empty=False, ts_equal=False, head_record_exists=True
     def oracle(kind, name, payload, site):
         if kind in ("cmp", "eq"):
             a, b2 = str(name), str(payload)
+            if "key:" in a and "key:" in b2 and "head-" not in a + b2:
+                ka, kb = a[a.index("key:"):].rstrip(")"), b2[b2.index("key:"):].rstrip(")")
+                c = (ka > kb) - (ka < kb)
+                return (c == 0) if kind == "eq" else c
             if head is None or "head-" not in a + b2:
                 return None
             rev = "head-" in a
@@ -182,6 +186,19 @@ def eval_entry_put(f, head, empty=False, ts_equal=False, head_record_exists=True
         if ct and ct[1] == "get" and ct[0] == "records":
             log.append((ct[0], "get", names[1]))
             return E.Ok(E.Some(E.Tok("recordguard"))) if head_record_exists else E.Ok(E.NONE)
+        if ct and ct[1] == "range" and ct[0] == "records":
+            # the author's surviving records, all at the entry's timestamp: keys k-a < k-m < k-z (the entry being stored is k-a)
+            from . import coll as _coll
+            log.append((ct[0], "range", names[1]))
+            return E.Ok(_coll.seq("iter", [E.Ok(("tuple", [E.Tok("rowkey:%s" % k), E.Tok("rowval:%s" % k)])) for k in survivors]))
+        if name == "value" and names and names[0].startswith("rowkey:"):
+            return ("tuple", [E.Tok("ns"), E.Tok("author"), E.Tok("key:" + names[0][7:])])
+        if name == "value" and names and names[0].startswith("rowval:"):
+            return ("tuple", [E.Int(1000), E.Tok("nsig"), E.Tok("asig"), E.Int(1), E.Tok("hash")])
+        if name in ("to_vec", "to_owned", "as_slice", "as_ref", "deref") and names and names[0].strip("&*").startswith("key:"):
+            return args[0]
+        if name in ("author_prefix", "author_key") and "RecordsBounds" in (t["f"].get("path") or "") + (t["f"].get("full") or ""):
+            return E.Tok("bounds-of-this-author")
         if ct and ct[1] == "get":
             log.append((ct[0], "get", names[1]))
             return E.Ok(E.Some(E.Tok("headguard"))) if head is not None else E.Ok(E.NONE)
@@ -194,7 +211,8 @@ def eval_entry_put(f, head, empty=False, ts_equal=False, head_record_exists=True
             return E.Int(1 if empty else 0)      # the entry being stored is a deletion marker
         if name in ("to_bytes", "as_bytes") and names:
             return E.Tok("b(%s)" % names[0])
-        return None
+        from . import coll as _c2
+        return _c2.Collections(f).handle(kind, name, payload, site)
     try:
         ret, it = E.run_it(f, EP.replace("::{closure#0}", ""), [E.href("self"), E.Tok("e")], {"self": E.Tok("self")}, oracle)
         return E.describe(ret, f), log
@@ -268,9 +286,13 @@ def r2(ctx):
     for ts_equal, exists, label, want in ((True, False, "same-timestamp,head-entry-pruned-by-this-insert", True), (True, True, "same-timestamp,head-entry-still-stored", False),
                                           (False, False, "older-timestamp", False)):
         got, log = eval_entry_put(f, -1, False, ts_equal=ts_equal, head_record_exists=exists)
-        wrote = any(x[0] == "latest_per_author" and x[1] != "get" for x in log)
-        ctx.check(got == "Ok(())" and wrote == want, "C18.R2", EP, "entry_put[below-head,%s]" % label,
-                  "returns %s, head %s; spec: %s (the maintained head must be the one a rebuild from the surviving records gives)" % (got, "rewritten" if wrote else "kept", "rewritten" if want else "kept"), ep.sp)
+        heads = [x for x in log if x[0] == "latest_per_author" and x[1] != "get"]
+        wrote = bool(heads)
+        # when the head moves it moves to the greatest (timestamp, key) among the surviving records of the author - here the entry
+        # being stored (k-a) and a sibling that was not pruned because its hash is larger (k-m): k-m
+        to_max = (not want) or (len(heads) == 1 and "key:k-m" in str(heads[0][3]))
+        ctx.check(got == "Ok(())" and wrote == want and to_max, "C18.R2", EP, "entry_put[below-head,%s]" % label,
+                  "returns %s, head %s; spec: %s (the maintained head must be the one a rebuild from the surviving records gives)" % (got, ("rewritten to %s" % (heads[0][3],)) if wrote else "kept", "rewritten to the greatest (timestamp, key) among the survivors: (1000, k-m)" if want else "kept"), ep.sp)
     # the reader of the index inverts the permutation (shared with C05.R6)
     from . import C05
     sub = type(ctx)(ctx.prop, ctx.tier, ctx.facts, ctx.cfg)
